@@ -848,3 +848,191 @@ Proof.
       congruence. }
   tauto.
 Qed.
+
+(* ------------------------------------------------------------------------------------------ *)
+(* ---- independent specification: maximal alphanumeric runs joined by single hyphens ---- *)
+Fixpoint words (s : str) : list str :=
+  match s with
+  | [] => []
+  | c :: t =>
+      if keep c then
+        match t with
+        | d :: _ => if keep d then match words t with w :: ws => (c :: w) :: ws | [] => [[c]] end
+                    else [c] :: words t
+        | [] => [[c]]
+        end
+      else words t
+  end.
+
+Fixpoint joinh (ws : list str) : str :=
+  match ws with
+  | [] => []
+  | w :: t => match t with [] => w | _ => w ++ [HY] ++ joinh t end
+  end.
+
+Definition ends_sep (s : str) : bool := match rev s with c :: _ => negb (keep c) | [] => false end.
+Definition trailj (ws : list str) (b : bool) : str :=
+  match ws with [] => [] | _ => joinh ws ++ (if b then [HY] else []) end.
+
+(* one pass: alphanumerics stay, every maximal run of other characters becomes one hyphen *)
+Fixpoint squash (s : str) : str :=
+  match s with
+  | [] => []
+  | c :: t =>
+      if keep c then c :: squash t
+      else match t with
+           | d :: _ => if keep d then HY :: squash t else squash t
+           | [] => [HY]
+           end
+  end.
+
+Lemma keep_hy_false : keep HY = false.
+Proof. reflexivity. Qed.
+
+Lemma collapse_subst_squash : forall s, collapse (subst s) = squash s.
+Proof.
+  induction s as [|c t IH]; [reflexivity|]. rewrite subst_cons. cbn [squash].
+  destruct (keep c) eqn:Ec.
+  - rewrite collapse_cons. pose proof (keep_not_hy c Ec). destruct (c =? HY) eqn:E; [lia|]. rewrite IH. reflexivity.
+  - rewrite collapse_cons. change (HY =? HY) with true. cbv iota.
+    destruct t as [|d t']; [reflexivity|]. rewrite subst_cons in *. destruct (keep d) eqn:Ed.
+    + pose proof (keep_not_hy d Ed). destruct (d =? HY) eqn:E; [lia|]. rewrite IH. reflexivity.
+    + change (HY =? HY) with true. cbv iota. exact IH.
+Qed.
+
+Lemma squash_head : forall s,
+  match s with
+  | [] => squash s = []
+  | c :: _ => if keep c then exists r, squash s = c :: r else exists r, squash s = HY :: r
+  end.
+Proof.
+  induction s as [|c t IH]; [reflexivity|]. cbn [squash]. destruct (keep c) eqn:Ec; [eauto|].
+  destruct t as [|d t']; [eauto|]. destruct (keep d) eqn:Ed; [eauto|]. exact IH.
+Qed.
+
+Definition E (s : str) : str := strip_lead (squash s).
+
+Lemma squash_lead_E : forall s,
+  squash s = match s with [] => [] | c :: _ => if keep c then E s else HY :: E s end.
+Proof.
+  intros s. pose proof (squash_head s) as H. unfold E. rewrite strip_lead_eq. destruct s as [|c t]; [exact H|].
+  destruct (keep c) eqn:Ec; destruct H as [r Hr]; rewrite Hr.
+  - pose proof (keep_not_hy c Ec). destruct (c =? HY) eqn:E1; [lia | reflexivity].
+  - change (HY =? HY) with true. reflexivity.
+Qed.
+
+Lemma words_keep_head : forall c t, keep c = true -> exists w ws, words (c :: t) = (c :: w) :: ws.
+Proof.
+  intros c t Hc. cbn [words]. rewrite Hc. destruct t as [|d t']; [eauto|].
+  destruct (keep d); [destruct (words (d :: t')); eauto | eauto].
+Qed.
+
+Lemma ends_sep_cons : forall c t, t <> [] -> ends_sep (c :: t) = ends_sep t.
+Proof.
+  intros c t Hne. unfold ends_sep. cbn [rev]. destruct (rev t) as [|x r] eqn:Er.
+  - apply (f_equal (@rev Z)) in Er. rewrite rev_involutive in Er. cbn in Er. congruence.
+  - reflexivity.
+Qed.
+
+Lemma words_cons_sep : forall d t, keep d = false -> words (d :: t) = words t.
+Proof. intros d t Hd. cbn [words]. rewrite Hd. reflexivity. Qed.
+
+Lemma words_nil_ends : forall t d, keep d = false -> words (d :: t) = [] -> ends_sep (d :: t) = true.
+Proof.
+  induction t as [|e t IH]; intros d Hd Hw.
+  - unfold ends_sep. cbn [rev app]. rewrite Hd. reflexivity.
+  - rewrite ends_sep_cons by discriminate. rewrite words_cons_sep in Hw by exact Hd.
+    destruct (keep e) eqn:Ee.
+    + destruct (words_keep_head e t Ee) as [w [ws Hw']]. rewrite Hw' in Hw. discriminate.
+    + apply IH; assumption.
+Qed.
+
+Lemma E_words : forall s, E s = trailj (words s) (ends_sep s).
+Proof.
+  induction s as [|c t IH]; [reflexivity|].
+  unfold E. cbn [squash]. destruct (keep c) eqn:Ec.
+  - rewrite strip_lead_eq. pose proof (keep_not_hy c Ec). destruct (c =? HY) eqn:E1; [lia|].
+    rewrite (squash_lead_E t). cbn [words]. rewrite Ec. destruct t as [|d t'].
+    + unfold trailj, ends_sep. cbn [rev app joinh]. rewrite Ec. reflexivity.
+    + rewrite ends_sep_cons by discriminate. rewrite IH. destruct (keep d) eqn:Ed.
+      * destruct (words_keep_head d t' Ed) as [w [ws Hw]]. rewrite Hw. cbn [trailj joinh].
+        destruct ws; reflexivity.
+      * destruct (words (d :: t')) as [|w ws] eqn:Hw.
+        -- cbn [trailj joinh]. (* t all separators: ends with a separator *)
+           assert (He : ends_sep (d :: t') = true) by (apply words_nil_ends; assumption).
+           rewrite He. reflexivity.
+        -- cbn [trailj joinh]. rewrite <- app_assoc. reflexivity.
+  - cbn [words]. rewrite Ec. destruct t as [|d t'].
+    + reflexivity.
+    + rewrite ends_sep_cons by discriminate. destruct (keep d) eqn:Ed.
+      * rewrite strip_lead_eq. change (HY =? HY) with true. cbv iota.
+        rewrite (squash_lead_E (d :: t')). rewrite Ed. exact IH.
+      * exact IH.
+Qed.
+
+Definition word_ok (w : str) : Prop := w <> [] /\ Forall (fun c => keep c = true) w.
+
+Lemma words_ok : forall s, Forall word_ok (words s).
+Proof.
+  induction s as [|c t IH]; [constructor|]. cbn [words]. destruct (keep c) eqn:Ec; [|exact IH].
+  destruct t as [|d t']; [repeat constructor; [discriminate | exact Ec]|].
+  destruct (keep d) eqn:Ed.
+  - destruct (words (d :: t')) as [|w ws]; [repeat constructor; [discriminate | exact Ec]|].
+    inversion IH as [|? ? [Hw1 Hw2] Hws]; subst. constructor; [|exact Hws].
+    split; [discriminate | constructor; assumption].
+  - constructor; [|exact IH]. split; [discriminate | repeat constructor; exact Ec].
+Qed.
+
+Lemma joinh_cons : forall w ws, joinh (w :: ws) = match ws with [] => w | _ => w ++ [HY] ++ joinh ws end.
+Proof. reflexivity. Qed.
+
+Lemma joinh_last : forall ws, ws <> [] -> Forall word_ok ws ->
+  joinh ws <> [] /\ keep (last (joinh ws) 0) = true.
+Proof.
+  induction ws as [|w ws IH]; intros Hne H; [congruence|]. inversion H as [|? ? [Hw1 Hw2] Hws]; subst.
+  rewrite joinh_cons. destruct ws as [|w' ws'].
+  - split; [exact Hw1|]. apply (Forall_last (fun c => keep c = true)); assumption.
+  - destruct (IH ltac:(discriminate) Hws) as [Hj1 Hj2]. split.
+    + destruct w; [congruence | discriminate].
+    + rewrite app_assoc. rewrite last_app_ne by exact Hj1. exact Hj2.
+Qed.
+
+Lemma strip_trail_app_hy : forall x, x <> [] -> strip_trail (x ++ [HY]) = x.
+Proof.
+  induction x as [|c t IH]; intro Hne; [congruence|]. cbn [app]. rewrite strip_trail_cons.
+  destruct t as [|d t'].
+  - cbn [app]. rewrite strip_trail_cons. change (HY =? HY) with true. reflexivity.
+  - cbn [app] in *. rewrite IH by discriminate. reflexivity.
+Qed.
+
+Lemma strip_trail_id : forall x, x <> [] -> last x 0 <> HY -> strip_trail x = x.
+Proof.
+  induction x as [|c t IH]; intros Hne Hl; [congruence|]. rewrite strip_trail_cons.
+  destruct t as [|d t'].
+  - cbn in Hl. destruct (c =? HY) eqn:E; [lia | reflexivity].
+  - rewrite last_cons_ne in Hl by discriminate. rewrite IH by (discriminate || exact Hl). reflexivity.
+Qed.
+
+(* the sanitised form is exactly the maximal alphanumeric runs of the name, joined by single hyphens *)
+Theorem sanitize_is_joined_words : forall s, sanitize s = joinh (words s).
+Proof.
+  intro s. unfold sanitize. rewrite collapse_subst_squash. fold (E s). rewrite E_words.
+  pose proof (words_ok s) as Hok. unfold trailj. destruct (words s) as [|w ws] eqn:Hw; [reflexivity|].
+  destruct (joinh_last (w :: ws) ltac:(discriminate) Hok) as [Hne Hlast].
+  destruct (ends_sep s).
+  - apply strip_trail_app_hy. exact Hne.
+  - rewrite app_nil_r. apply strip_trail_id; [exact Hne|]. apply keep_not_hy. exact Hlast.
+Qed.
+
+(* what `words` are: non-empty runs of alphanumerics whose concatenation is the name's alphanumerics *)
+Theorem words_concat : forall s, concat (words s) = filter keep s.
+Proof.
+  induction s as [|c t IH]; [reflexivity|]. cbn [words filter]. destruct (keep c) eqn:Ec; [|exact IH].
+  destruct t as [|d t']; [reflexivity|]. destruct (keep d) eqn:Ed.
+  - destruct (words_keep_head d t' Ed) as [w [ws Hw]]. rewrite Hw in *. cbn [concat app] in *. rewrite IH. reflexivity.
+  - cbn [concat app]. rewrite IH. reflexivity.
+Qed.
+
+
+Theorem words_spec : forall s, Forall word_ok (words s) /\ concat (words s) = filter keep s.
+Proof. intro s. split; [apply words_ok | apply words_concat]. Qed.
